@@ -451,6 +451,12 @@ func run(e *core.Env) {
 		w.cleanupAttempt(att)
 	}
 
+	// ---- the router connected to itself ----
+	if tp.Chance(1, 2) {
+		time.Sleep(time.Second + time.Duration(tp.Intn(2000))*time.Millisecond)
+		selfLoop(w, tp.Intn(2))
+	}
+
 	// ---- a dishonest remote end ----
 	// So far the adversary sat on the wire between two honest routers. Here the remote end
 	// itself is the adversary: an outsider with a valid identity of its own runs the shipped
@@ -649,6 +655,74 @@ func run(e *core.Env) {
 		simnet.Wait()
 		V.Drain()
 	}
+}
+
+// selfLoop cross-wires a connection the router dials with one it accepts: every handshake
+// message it sends comes back to it on the other connection ("reflected back to its sender"),
+// relayed unchanged and in the order it was written by an adversary without any key.
+func selfLoop(w *world, v int) {
+	e, tp := w.e, w.tp
+	V := w.S[v]
+	p1 := w.cn.NewPair("self-dial")
+	p2 := w.cn.NewPair("self-accept")
+	var dialPanic string
+	go func() {
+		defer func() {
+			if r := recover(); r != nil {
+				dialPanic = fmt.Sprint(r)
+			}
+		}()
+		_, _ = V.Node.Peering.VerifSetupLink(p1.A, V.URL, true)
+	}()
+	simnet.Wait()
+	time.Sleep(time.Duration(2+tp.Intn(20)) * time.Millisecond)
+	if !V.Listener.Offer(p2.B) {
+		e.Infra("listener closed")
+	}
+	simnet.Wait()
+	relayed := 0
+	for guard := 0; guard < 40; guard++ {
+		var next *simnet.Record
+		for _, r := range w.cn.Pending() {
+			fromDial := r.Conn == p1 && r.Dir == 0
+			fromAccept := r.Conn == p2 && r.Dir == 1
+			if (fromDial || fromAccept) && !r.EOF && (next == nil || r.At.Before(next.At)) {
+				next = r
+			}
+		}
+		if next == nil {
+			break
+		}
+		w.cn.Remove(next)
+		if next.Conn == p1 {
+			w.cn.DeliverBytes(p2.B, next.Data, false)
+		} else {
+			w.cn.DeliverBytes(p1.A, next.Data, false)
+		}
+		relayed++
+	}
+	simnet.Wait()
+	e.Fault("reflect")
+	e.Ev("selfloop", uint64(v), uint64(relayed))
+	if dialPanic != "" {
+		e.Fail("setup-panic:"+core.PanicClass(dialPanic), "link setup panicked when the router was connected to itself")
+	}
+	if l := V.Node.Peering.GetLink(V.Node.IP); l != nil {
+		e.Fail("link-registered-with-itself", "%s: %s registered a link whose peer is its own address after its own handshake messages were reflected to it across two connections (%d records relayed)", w.desc, V.Node.Name, relayed)
+	}
+	e.Probe("self_loop_left_no_link")
+	for _, l := range V.Node.Peering.GetLinks() {
+		l.Close(nil)
+	}
+	for _, c := range []*simnet.ConnPair{p1, p2} {
+		_ = c.A.Close()
+		_ = c.B.Close()
+	}
+	simnet.Wait()
+	for _, r := range w.cn.Pending() {
+		w.cn.Remove(r)
+	}
+	V.Drain()
 }
 
 func victimEnd(a *linkpair.Attempt, victimDir int) *simnet.SimConn {
